@@ -10,6 +10,31 @@ CLAIMED = {
          "Exploration: hundreds of thousands of generated strings (every adjacency of the tokenizer's character classes, multi-byte scalars, unterminated constructs) go through parse/execute/expr/describe; every recursive construct is nested 1..48, 64, 100, 300, 1000 (must never abort), 3000 and 10000 deep (known stack findings by construct) in dev and release builds. Held on everything explored apart from the listed known findings.",
          "Termination is decided by watchdog only (30 s vs. milliseconds, reproduced three times); absence of panics is not proven.",
          "DESIGN.md §4 C01"),
+
+ "C03": ("property-based testing: type-directed expression trees against an independent reference evaluator on exact big-integer decimals; exhaustive operator x palette table",
+         "Exploration: every built-in binary operator over every ordered pair of a 30-value palette (plain and `not` form), prefix operators, aggregates, and ~400k random typed/ill-typed trees are evaluated and compared (value and variant) with a reference evaluator; wrong operand types must give Err.",
+         "Trusts the reference evaluator as the reading of the documented semantics; results the documentation does not pin are marked unspecified and only checked for no-panic (listed in the evidence assumptions).",
+         "DESIGN.md §4 C03"),
+ "C04": ("property-based testing in two build profiles: exhaustive operator x edge-palette table and generated edge-value trees against checked big-integer reference arithmetic, under catch_unwind",
+         "Exploration, exhaustive over the stated table: all arithmetic/bit operators and their compound forms over all ordered pairs of a 44-value edge palette, plus aggregates and postfix/prefix forms, and ~100k random edge-value trees, each in the dev build (overflow checks) and the release build; every numeric fault must be Err, everything else the exact value.",
+         "Same reference evaluator as C03; near-limit results that need rounding are not asserted.",
+         "DESIGN.md §4 C04"),
+ "C06": ("model-based property testing: generated statement sequences run on the engine (execute and parse+exec) and on a model context with the reference evaluator; results and every binding compared",
+         "Exploration: ~250k programs of 1-10 statements (all 11 assignment operators, nested/chained assignments, type changes, failing statements at every position, function-bound and unbound targets) with generated initial contexts; program result and the final binding of every name must equal the model.",
+         "Same reference evaluator as C03; bindings derived from unspecified values are not compared.",
+         "DESIGN.md §4 C06"),
+ "C07": ("model-based property testing: programs with logging handlers at every position; the engine's call log is compared with the log predicted by a reference traversal; one injected Err at a generated call position",
+         "Exploration: ~200k programs with observable context/global functions and prefix/infix/postfix/SETTER operators; call order, call count, arguments, laziness of conditionals and stop-at-first-error are decided by exact log equality and context equality.",
+         "Loggers are harness handlers registered under reserved vh_ names; positions the statement does not pin (non-name assignment targets) carry no observable.",
+         "DESIGN.md §4 C07"),
+ "C15": ("fault injection by enumeration: for every generated program, every handler invocation k and both modes (Err, panic) the k-th invocation fails; log, unwind payload, context and a follow-up battery are checked against the model",
+         "Exploration with per-program exhaustive fault positions: ~170k fault runs over all handler kinds; after each, the same context, fresh contexts on this and on a new thread, registration, and all engine locks must behave as if the evaluation had just stopped.",
+         "Panics are injected in-process under catch_unwind; lock state is read through the cfg-guarded locks_free() hook and the context's public mutex.",
+         "DESIGN.md §4 C15"),
+ "C16": ("stateful property testing: generated histories of exec / parse-only / parse-once-exec-many / re-registration steps dispatched to persistent worker threads and concurrent bursts; every occurrence must reproduce the solo outcome; depth sweeps",
+         "Exploration: ~30k histories (6-30 steps, 1-4 threads) over pools of programs that share names; outcomes (result and final context) compared with the reference evaluator's solo outcome, parse results with the reference parser under the last registration; 1/64 of cases cross-check the solo outcome in a fresh process.",
+         "Concurrent bursts sample free-running interleavings; the harness's own registrations are modelled.",
+         "DESIGN.md §4 C16"),
  "C05": ("property-based testing with an exhaustive component: all token sequences up to length 5 (quick) / 6 (thorough) over a 22-symbol alphabet, plus generated corruptions of valid programs, against a lenient nondeterministic reference recogniser (one-directional oracle)",
          "Exploration, exhaustive over the stated finite space: every sequence of <= 5 (6) tokens over the class alphabet and ~300k corruptions are parsed; whenever no lenient reading of the documented grammar exists the engine must return Err.",
          "Trusts the recogniser as the lenient reading of the grammar (it can only err toward accepting, which asserts nothing). Acceptance of valid programs is C02/C11/C12's job.",
